@@ -168,6 +168,8 @@ class Machine:
                    key=lambda x: x.rank(False))
         if best is not pre:
             self.flag("C06.queue_order", f"{pre} preempted although {best} ranks ahead of it in the queue", "C06.queue_order/preempt")
+        if self.creating is None or self.creating is not pre:
+            self.bump("deferred_eviction")      # the preemptor was already queued; somebody else's action let it in
         self.users.remove(victim)
         victim.state = "evicted"
         self.past[victim.actor].append(victim)
@@ -423,13 +425,25 @@ def strategy_for(cls):
             (st.lists(cmd, min_size=2, max_size=4), 3),
             (st.tuples(st.just("adv"), st.sampled_from([1, 0.5, 2, 0.25])).map(list), 2),
         ])
-        return st.fixed_dictionaries({
+        free = st.fixed_dictionaries({
             "cls": st.just(cls),
             "cap": st.sampled_from([1, 1, 2, 2, 3, 4]),
             "n": st.integers(3, 6),
             "react": st.lists(st.sampled_from(["none", "release"]), min_size=6, max_size=6),
             "groups": st.lists(group, min_size=15, max_size=80 if big else 40),
         })
+        if cls != "PreemptiveResource":
+            return free
+        # deferred preemption: users ranked worst, then a better-ranked head that does not preempt, then a preempting request
+        # queued behind it; what happens when the head leaves (cancel / with-exit / grant after a release) is generated
+        def prefixed(cap):
+            users = [[["req", 0, 2, False]] for _ in range(cap)]
+            pre = users + [[["req", 0, 0, False]], [["req", 0, 1, True]]]
+            return st.fixed_dictionaries({
+                "cls": st.just(cls), "cap": st.just(cap), "n": st.integers(cap + 2, 6),
+                "react": st.lists(st.sampled_from(["none", "release"]), min_size=6, max_size=6),
+                "groups": st.lists(group, min_size=6, max_size=30).map(lambda g: pre + g)})
+        return kgen.weighted([(free, 3), (st.sampled_from([1, 1, 2]).flatmap(prefixed), 1)])
     return strat
 
 
@@ -454,7 +468,7 @@ PROP = Property(
               essential=["grant_while_others_wait", "cancel_head", "release_queue", "coinciding_ops"]),
         Facet("PreemptiveResource", strategy_for("PreemptiveResource"), run_case, quick=700, thorough=5000,
               essential=["eviction", "equal_key_preempt_refused", "preempted_delivered", "grant_while_others_wait",
-                         "eviction_among_equal_worst_users"]),
+                         "eviction_among_equal_worst_users", "deferred_eviction"]),
     ],
     assumptions=["each actor holds or awaits at most one request at a time (statement's precondition)",
                  "actors never terminate while holding"],
